@@ -72,6 +72,20 @@ class Short(io.RawIOBase):
         return len(d)
 
 
+class ReadOnly:
+    """A wsgi.input that offers read() only, as PEP 3333 requires and no more (gunicorn / uWSGI / mod_wsgi style)."""
+
+    def __init__(self, d, k):
+        self.b, self.k, self.total, self.calls = io.BytesIO(d), k, 0, 0
+
+    read = Short.read
+
+    def readline(self, n=-1):
+        d = self.b.readline(n)
+        self.total += len(d)
+        return d
+
+
 def payload(rng, n):
     return bytes(rng.choice(b"ab\r\n-x") for _ in range(n)).replace(b"\r\n--" + BND, b"xxxxxxxxx")
 
@@ -275,7 +289,8 @@ def check_request(W, rec, rng):
     with_cl = rng.random() < 0.6
     terminated = rng.random() < 0.5
     k = rng.choice([1, 7, 100000]) if len(body) < 5000 else 100000
-    st = Short(body, k)
+    st = Short(body, k) if rng.random() < 0.6 else ReadOnly(body, k)
+    rec.observe("input_streams:" + type(st).__name__)
     env = {"REQUEST_METHOD": "POST", "wsgi.input": st, "CONTENT_TYPE": ct, "wsgi.url_scheme": "http", "SERVER_NAME": "h", "SERVER_PORT": "80",
            "PATH_INFO": "/", "SCRIPT_NAME": "", "QUERY_STRING": ""}
     lying = with_cl and terminated and len(body) > 8 and rng.random() < 0.35
@@ -295,7 +310,7 @@ def check_request(W, rec, rng):
     R.max_form_memory_size = memv
     R.max_form_parts = pl
     case = {"path": "Request", "kind": kind, "body_len": len(body), "parts": [[a, b.decode(), len(c)] for a, b, c in parts] if parts else None,
-            "mem": memv, "max_content_length": mcl, "max_parts": pl, "with_content_length": with_cl, "terminated": terminated, "short": k}
+            "mem": memv, "max_content_length": mcl, "max_parts": pl, "with_content_length": with_cl, "terminated": terminated, "short": k, "input": type(st).__name__}
     rec.case()
     rec.observe("request_cases")
     if kind == "urlencoded" and not with_cl and terminated:
@@ -386,13 +401,16 @@ def check_request(W, rec, rng):
             rec.violation("C10/E2-body-read-although-declared-length-over-max", f"{st.total} bytes read; {case}", case, monitor="byte-accounting")
         return
     if not with_cl and terminated and mcl is not None:
-        if st.total > mcl + 1 and st.total > mcl:
+        if st.total > mcl:
             # LimitedStream(is_max) may consume at most mcl bytes
             if st.total > mcl:
                 rec.violation("C10/E2-terminated-stream-read-past-max_content_length", f"{st.total} > {mcl}; {case}", case, monitor="byte-accounting")
                 return
         if len(body) > mcl and out[0] == "ok":
-            rec.violation("C10/E1-streamed-length-over-max_content_length-accepted", f"{case}", case, monitor="E1")
+            # the recorded finding is one mechanism: a urlencoded body drained with one read() and no memory limit.
+            # Anything else that is accepted over the maximum (multipart bodies, limited urlencoded ones) is new.
+            key = "C10/E1-streamed-length-over-max_content_length-accepted" if (kind == "urlencoded" and memv is None) else f"C10/E1-streamed-{kind}-over-max_content_length-accepted"
+            rec.violation(key, f"{case}", case, monitor="E1")
             return
     if not readable:
         if out != ("ok", [], []) or st.total:
@@ -535,6 +553,53 @@ def world():
     return {"FP": FP, "M": M, "Request": Request}
 
 
+def terminated_byte_accounting(W, rec, rng):
+    """Server-terminated input without a declared length, limits that are not multiples of any read size, inputs that
+    deliver a few bytes per read: whatever the outcome, no more than max_content_length bytes leave the server's input -
+    through form parsing, get_data() and plain reads of request.stream."""
+    from werkzeug.exceptions import HTTPException
+
+    Request = W["Request"]
+    for mcl in (5, 20, 62, 100, 1000):
+        for extra in (-1, 0, 1, 30):
+            for k in (1, 3, 7, 64, 100000):
+                for cls in (Short, ReadOnly):
+                    for use in ("form-multipart", "form-urlencoded", "get_data", "reads"):
+                        n = max(0, mcl + extra)
+                        if use == "form-multipart":
+                            body = mkbody([("field", b"a", b"x" * max(0, n - 90)), ("file", b"f", b"y" * 7)])
+                            ct = "multipart/form-data; boundary=" + BND.decode()
+                        else:
+                            body = (b"a=" + b"x" * n)[:n]
+                            ct = "application/x-www-form-urlencoded" if use == "form-urlencoded" else "application/octet-stream"
+                        st = cls(body, k)
+                        env = {"REQUEST_METHOD": "POST", "wsgi.input": st, "CONTENT_TYPE": ct, "wsgi.url_scheme": "http", "SERVER_NAME": "h", "SERVER_PORT": "80",
+                               "PATH_INFO": "/", "SCRIPT_NAME": "", "QUERY_STRING": "", "wsgi.input_terminated": True}
+
+                        class R(Request):
+                            max_content_length = mcl
+
+                        case = {"path": "terminated-accounting", "use": use, "body_len": len(body), "max_content_length": mcl, "short": k, "input": cls.__name__}
+                        rec.case()
+                        rec.nontrivial(("terminated-accounting", use, len(body), mcl, k, cls.__name__))
+                        rec.observe("terminated_accounting_cases")
+                        r = R(env)
+                        try:
+                            if use.startswith("form"):
+                                r.form, r.files  # noqa: B018
+                            elif use == "get_data":
+                                r.get_data()
+                            else:
+                                s_ = r.stream
+                                while s_.read(rng.choice([1, 4, 9, 70])):
+                                    pass
+                        except HTTPException:
+                            pass
+                        if st.total > mcl:
+                            rec.violation("C10/E2-terminated-stream-read-past-max_content_length", f"{st.total} bytes left the server's input, max_content_length {mcl}; {case}", case, monitor="byte-accounting")
+                            return
+
+
 def run(shard, rec, rng):
     W = world()
     from werkzeug import wsgi
@@ -557,6 +622,8 @@ def run(shard, rec, rng):
     if shard["index"] % 4 == 0:
         reuse_and_sharing(W, rec, rng)
         contracts.LOG.take()
+    if shard["index"] % 4 == 1:
+        terminated_byte_accounting(W, rec, rng)
     for i in range(cfg["request"]):
         check_request(W, rec, rng)
     rec.sample({"path": "MultiPartParser", "parts": [["field", "n0", "64 bytes"], ["file", "n1", "65 bytes"]], "mem": 64, "max_parts": 2, "buffer_size": 63, "short": 2})
